@@ -175,6 +175,22 @@ def run_case(rng, ctx):
         for j in range(i, n + 1):
             if n <= 6 or rng.random() < .3:
                 laws.eq("slice-three-parts", d[:i] >> d[i:j] >> d[j:], d, i=i, j=j)
+    # slices of tensor products (their layers are built by another code path)
+    if small and len(a) + len(c) <= 8:
+        for t in (a @ c, c @ a, (a @ c) >> kit.id(a.cod @ c.cod), a @ kit.id(c.dom) @ c):
+            kt, m = struct.key(t), len(t)
+            for i in range(m + 1):
+                left, right = t[:i], t[i:]
+                laws.eq("slice-two-halves", left >> right, t, i=i, of="tensor")
+                laws.model("slice", left, (kt[0], kt[1], struct.tykey(left.cod),
+                                           kt[3][:i]), i=i, of="tensor")
+                laws.model("slice", right, (kt[0], struct.tykey(right.dom), kt[2],
+                                            kt[3][i:]), i=i, of="tensor")
+                ctx.expect("model:slice",
+                           struct.tykey(left.dom) == kt[1]
+                           and struct.tykey(right.cod) == kt[2]
+                           and struct.tykey(left.cod) == struct.tykey(right.dom),
+                           i=i, of="tensor", value=lambda: safe_repr(t))
     laws.eq("slice-none-bounds", d[:], d)
     laws.eq("slice-none-bounds", d[None:None], d)
     for _ in range(3):
